@@ -1,7 +1,11 @@
-(** Executable entry point of the version-vector model for the correspondence check. *)
+(** Executable entry point of the version-vector models for the correspondence check.
+    ops 0-7: the functional model (Cluster/VV.v), one operation on fresh operands;
+    op 8: a whole SESSION over one family of vector objects on the HEAP model (Cluster/VVHeap.v);
+    op 9: a sequential script on one AtomicVersionVector (heap model);
+    op 10: concurrent Increment loops on one AtomicVersionVector (Cluster/VVAtomic.v, round-robin schedule). *)
 From Coq Require Import List NArith ZArith.
 From stdpp Require Import gmap.
-From Vivid Require Import Base.Tm Base.ResTm Codec.Prim Cluster.VV.
+From Vivid Require Import Base.Tm Base.ResTm Codec.Prim Cluster.VV Cluster.VVHeap Cluster.VVAtomic.
 Local Open Scope N_scope.
 
 Definition get_vv (t : tm) : option vv :=
@@ -12,6 +16,139 @@ Definition get_vv (t : tm) : option vv :=
 Definition t_vv (v : vv) : tm := tlist (tpair TB TN) (ventries v).
 Definition t_order (o : vorder) : tm :=
   TN (match o with VEqual => 0 | VBefore => 1 | VAfter => 2 | VConcurrent => 3 end).
+
+(** the iteration oracle of the executable instance: the [t]-th range loop runs backwards when [t] is odd
+    (any permutation would do: the theorems hold for every oracle satisfying [iter_ok]) *)
+Definition run_iter (t : N) (m : vv) : list ent :=
+  if N.odd t then rev (map_to_list m) else map_to_list m.
+
+(** ** sessions (op 8) *)
+Definition get_sop (t : tm) : option sop :=
+  match t with
+  | TL [TN 0; TN i; TB k] => Some (SInc i k)
+  | TL [TN 1; TN i; TN j] => Some (SMerge i j)
+  | TL [TN 2; TN i] => Some (SClone i)
+  | TL [TN 3; TN i] => Some (SDecode i)
+  | TL [TN 4; TN i] => Some (SCompact i)
+  | TL [TN 5; TN i] => Some (SObserve i)
+  | TL [TN 6; TN i; act; mx] =>
+      match get_list get_b act, get_z mx with Some a, Some z => Some (SPrune i a z) | _, _ => None end
+  | TL [TN 7; TN i; TN j] => Some (SCompare i j)
+  | _ => None
+  end.
+
+Fixpoint first_alias (pool : list vobj) (l : loc) (idx : N) : option N :=
+  match pool with
+  | [] => None
+  | o :: r => match o_m o with
+              | Some l' => if l' =? l then Some idx else first_alias r l (idx + 1)
+              | None => first_alias r l (idx + 1)
+              end
+  end.
+(** what the harness can see of one vector object: its entries, WHICH earlier object of the pool it shares its
+    map with (the index of the first one; its own index when it shares with none) and - when the struct still has
+    the sorted-entries cache ([cache], told by the harness) - whether the cache field is nil and whether the cache
+    counts as valid ([!dirty && entries != nil], the condition under which SortedEntries returns it) *)
+Definition t_obj (cache : bool) (h : heap) (pool : list vobj) (o : vobj) : tm :=
+  let ents_nil := match o_ents o with None => true | Some _ => false end in
+  TL ([t_vv (omap h o);
+       match o_m o with Some l => topt TN (first_alias pool l 0) | None => TL [] end]
+      ++ (if cache then [tbool ents_nil; tbool (negb (o_dirty o) && negb ents_nil)] else [])).
+Definition t_ents (es : list ent) : tm := tlist (tpair TB TN) es.
+Definition t_sobs (cache : bool) (h : heap) (pool : list vobj) (ob : sobs) : tm :=
+  match ob with
+  | ONew v => TL [TN 0; t_obj cache h pool v]
+  | OErr e => TL [TN 1; TN (err_code e)]
+  | OOrder o => TL [TN 2; t_order o]
+  | OEntries es => TL [TN 3; t_ents es]
+  | OPruned v sl => TL [TN 4; t_obj cache h pool v; tlist TB sl]
+  | OBad => TL [TN 5]
+  end.
+Fixpoint hrun_tm (cache : bool) (ops : list sop) (st : list vobj * heap) : (list vobj * heap) * list tm :=
+  match ops with
+  | [] => (st, [])
+  | op :: r =>
+      let '(st1, ob) := hstep run_iter op st in
+      let t := t_sobs cache (snd st1) (fst st1) ob in
+      let '(st2, ts) := hrun_tm cache r st1 in (st2, t :: ts)
+  end.
+Definition run_session (cache : bool) (init : list ent) (ops : list sop) : tm :=
+  let '(v, h) := h_of_list init heap0 in
+  let '((pool, h'), ts) := hrun_tm cache ops ([v], h) in
+  TL [TL ts; TL (map (t_obj cache h' pool) pool)].
+
+(** ** AtomicVersionVector scripts (op 9): sequential calls; [p] is the pointer the wrapper holds *)
+Inductive aop : Type :=
+| ALoad | AStore (es : list ent) | ACas (old new : list ent) | ACasCur (new : list ent)
+| ACasInit (new : list ent)            (* old = the vector the wrapper was created with (stale after any write) *)
+| AInc (k : key).
+Definition get_ents (t : tm) : option (list ent) := get_list (get_pair get_b get_n) t.
+Definition get_aop (t : tm) : option aop :=
+  match t with
+  | TL [TN 0] => Some ALoad
+  | TL [TN 1; es] => match get_ents es with Some l => Some (AStore l) | None => None end
+  | TL [TN 2; o; n] => match get_ents o, get_ents n with Some a, Some b => Some (ACas a b) | _, _ => None end
+  | TL [TN 3; n] => match get_ents n with Some b => Some (ACasCur b) | None => None end
+  | TL [TN 4; TB k] => Some (AInc k)
+  | TL [TN 5; n] => match get_ents n with Some b => Some (ACasInit b) | None => None end
+  | _ => None
+  end.
+Definition t_outcome {A} (f : A -> tm) (o : outcome A) : tm :=
+  match o with ORet a => TL [TN 0; f a] | OFuel => TL [TN 2] end.
+(** every step also shows the value the wrapper holds afterwards *)
+Definition astep_tm (init : vobj) (p : loc) (op : aop) (h : heap) : (tm * loc) * heap :=
+  let '((t, p'), h') :=
+    match op with
+    | ALoad => ((TL [TN 0], p), h)
+    | AStore es => let '(v, h1) := h_of_list es h in let '(p1, h2) := a_store v h1 in ((TL [TN 0], p1), h2)
+    | ACas o n =>
+        let '(vo, h1) := h_of_list o h in let '(vn, h2) := h_of_list n h1 in
+        let '((b, p1), h3) := a_cas run_iter p vo vn h2 in ((TL [TN 0; tbool b], p1), h3)
+    | ACasCur n =>
+        let '(vn, h1) := h_of_list n h in
+        let '((b, p1), h2) := a_cas run_iter p (a_load p h1) vn h1 in ((TL [TN 0; tbool b], p1), h2)
+    | ACasInit n =>
+        let '(vn, h1) := h_of_list n h in
+        let '((b, p1), h2) := a_cas run_iter p init vn h1 in ((TL [TN 0; tbool b], p1), h2)
+    | AInc k =>
+        let '((r, p1), h1) := a_inc run_iter 8 p k h in
+        ((t_outcome (tres (fun v => t_vv (omap h1 v))) r, p1), h1)
+    end in
+  ((TL [t; t_vv (omap h' (a_load p' h'))], p'), h').
+Fixpoint arun (init : vobj) (p : loc) (ops : list aop) (h : heap) : list tm :=
+  match ops with
+  | [] => []
+  | op :: r => let '((t, p'), h') := astep_tm init p op h in t :: arun init p' r h'
+  end.
+Definition run_atomic (nil_init : bool) (init : list ent) (ops : list aop) : tm :=
+  let '(v, h) := if nil_init then (zero_obj, heap0) else h_of_list init heap0 in
+  let '(p, h1) := a_new v h in
+  TL (t_vv (omap h1 (a_load p h1)) :: arun v p ops h1).
+
+(** ** concurrent Increment loops (op 10): the model runs the small-step machine under a round-robin schedule; the
+    result (final vector, per node the numbers of successful and failed calls) is the same under every schedule,
+    which is what the implementation's real, uncontrolled schedule is compared with *)
+Fixpoint dedup_sorted (l : list key) : list key :=
+  match l with
+  | [] => []
+  | x :: r => match r with
+              | [] => [x]
+              | y :: _ => if bool_decide (x = y) then dedup_sorted r else x :: dedup_sorted r
+              end
+  end.
+Definition run_concurrent (init : list ent) (ths : list (key * N)) : tm :=
+  let ths0 := map (fun p => thread0 (fst p) (N.to_nat (snd p))) ths in
+  let total := fold_right (fun p acc => N.to_nat (snd p) + acc)%nat 0%nat ths in
+  match run_rr (3 * (total + 1) + 3)%nat (ths0, a_init (list_to_map init)) with
+  | None => tm_err 2
+  | Some (ths', s) =>
+      let nodes := dedup_sorted (isort lex_le (map fst ths)) in
+      TL [t_vv (as_value s);
+          TL (map (fun k => TL [TB k;
+                                TN (succ_on k ths');
+                                TN (fold_right (fun t acc => (if bool_decide (t_node t = k) then N.of_nat (t_errs t) else 0) + acc) 0 ths')])
+                  nodes)]
+  end.
 
 Definition run_vv (t : tm) : tm :=
   match t with
@@ -25,5 +162,14 @@ Definition run_vv (t : tm) : tm :=
   | TL [TN 5; a] => match get_vv a with Some a => tres TB (vwrite a) | _ => tm_err 1 end
   | TL [TN 6; TB bs] => tres (fun p => TL [t_vv (fst p); TN (N.of_nat (length bs - length (snd p)))]) (vread bs)
   | TL [TN 7; a; TB k] => match get_vv a with Some a => TN (vget a k) | _ => tm_err 1 end
+  | TL [TN 8; cache; init; ops] =>
+      match get_bool cache, get_ents init, get_list get_sop ops with
+      | Some c, Some i, Some o => run_session c i o | _, _, _ => tm_err 1 end
+  | TL [TN 9; nl; init; ops] =>
+      match get_bool nl, get_ents init, get_list get_aop ops with
+      | Some b, Some i, Some o => run_atomic b i o | _, _, _ => tm_err 1 end
+  | TL [TN 10; init; ths] =>
+      match get_ents init, get_list (get_pair get_b get_n) ths with
+      | Some i, Some t => run_concurrent i t | _, _ => tm_err 1 end
   | _ => tm_err 0
   end.
